@@ -471,7 +471,18 @@ func ruleRearmedTimerIsAbsolute(c *Ctx, r *Report) {
 			}
 			// a tail call: the state is what a method of the same machine returns
 			if ex, isEx := unspill(ret.Results[0]).(*ssa.Extract); isEx && ex.Index == 0 {
-				if tc, isCall := ex.Tuple.(*ssa.Call); isCall {
+				tc, isCall := ex.Tuple.(*ssa.Call)
+				// a tail call proper: every result of the return is the same-numbered result of the
+				// one call (a helper whose results are looked at first is not handed through)
+				if isCall && tc.Call.Signature().Results().Len() != len(ret.Results) {
+					isCall = false
+				}
+				for i, rv := range ret.Results {
+					if e2, isE2 := unspill(rv).(*ssa.Extract); !isE2 || e2.Index != i || e2.Tuple != ssa.Value(tc) {
+						isCall = false
+					}
+				}
+				if isCall {
 					if g := tc.Call.StaticCallee(); g != nil && g.Pkg == h.fn.Pkg && len(g.Blocks) > 0 && g.Signature.Recv() != nil {
 						for _, gb := range g.Blocks {
 							gret, isRet := gb.Instrs[len(gb.Instrs)-1].(*ssa.Return)
